@@ -104,8 +104,11 @@ theorem popWrap_sim (hs : NumSim N N' R) {m : M N} {m' : M N'} (h : RM R m m') (
         have := popRaw_sim hs h.1 0
         exact .ok ⟨this.1, this.2, rfl⟩
       | cons line rest =>
-        have := popRaw_sim hs (h.1.setStack 0 (LR.map_ofNat hs line)) 0
-        exact .ok ⟨this.1, this.2, rfl⟩
+        cases line with
+        | nil => exact .err
+        | cons ch cs =>
+          have := popRaw_sim hs (h.1.setStack 0 (LR.map_ofNat hs (ch :: cs))) 0
+          exact .ok ⟨this.1, this.2, rfl⟩
     · have := popRaw_sim hs h.1 0
       exact .ok ⟨this.1, this.2, rfl⟩
   · simp only [h0, ↓reduceIte]
